@@ -47,6 +47,8 @@ struct Live {
     fdl: fdl::FdlActiveStation,
     dp: dp::DpMaster<'static>,
     handles: Vec<dp::PeripheralHandle>,
+    /// handles slots had before a `reset_address` (slot, old handle)
+    retired: Vec<(usize, dp::PeripheralHandle)>,
 }
 
 enum Tg {
@@ -149,7 +151,11 @@ impl Live {
     fn slot_of(&self, h: dp::PeripheralHandle) -> String {
         match self.handles.iter().position(|x| *x == h) {
             Some(i) => i.to_string(),
-            None => "?".to_string(),
+            // an event may still carry the handle a slot had before `reset_address`
+            None => match self.retired.iter().rev().find(|(_, x)| *x == h) {
+                Some((i, _)) => i.to_string(),
+                None => "?".to_string(),
+            },
         }
     }
 
@@ -238,7 +244,7 @@ fn dp_new(w: &[&str]) -> Option<Option<Live>> {
         for p in peris {
             handles.push(dpm.add(p));
         }
-        Live { fdl, dp: dpm, handles }
+        Live { fdl, dp: dpm, handles, retired: vec![] }
     }))
 }
 
@@ -342,6 +348,7 @@ fn step(st: &mut Option<Live>, line: &str) -> String {
             (Ok(i), Ok(a)) => match l.handles.get(i).copied() {
                 Some(h) => Ok(guarded(|| {
                     l.dp.get_mut(h).reset_address(a);
+                    l.retired.push((i, h));
                     // handles carry the address: refresh them (slots are filled from the front)
                     l.handles = l.dp.iter().map(|(h, _)| h).collect();
                     "ok".to_string()
